@@ -134,7 +134,7 @@ func (p *prefixStream) XORKeyStream(dst, src []byte) {
 
 func genStream(t *rapid.T, label string, q *big.Int) (func() cipher.Stream, string) {
 	seed := genSeed(t, label+".seed")
-	kind := rapid.SampledFrom([]string{"xof", "xof", "zeros+xof", "ff+xof", "q+xof"}).Draw(t, label+".kind")
+	kind := rapid.SampledFrom([]string{"xof", "xof", "zeros+xof", "ff+xof", "q+xof", "ff00+xof"}).Draw(t, label+".kind")
 	n := rapid.IntRange(1, 200).Draw(t, label+".plen")
 	var prefix []byte
 	switch kind {
@@ -142,6 +142,14 @@ func genStream(t *rapid.T, label string, q *big.Int) (func() cipher.Stream, stri
 		prefix = make([]byte, n)
 	case "ff+xof":
 		prefix = bytes.Repeat([]byte{0xff}, n)
+	case "ff00+xof":
+		// every 16th byte 0xff, zeros between: candidates whose top byte is maximal while the raw draw
+		// is far below the modulus (a range check on the raw bytes passes, one on the final candidate
+		// with data spliced in would not)
+		prefix = make([]byte, n)
+		for i := 0; i < n; i += 16 {
+			prefix[i] = 0xff
+		}
 	case "q+xof":
 		// repeated big-endian encodings of q + small k: forces the rejection loops to retry
 		k := rapid.IntRange(0, 3).Draw(t, label+".k")
